@@ -4,27 +4,30 @@ Helper lemmas about the drain paths of the frame decoder: `write_all_bytes`, `dr
 guard, `collect`, `read`, `collect_to_writer`; the vocabulary `DrainOp` / `applyDrain` used by the
 C06 / C08 property theorems.
 -/
+set_option linter.unusedSectionVars false
 namespace Zstd.Model
 open Zstd
+
+variable {σ : Type} [BlockDec σ]
 
 /-! ### accessors on the whole decoder -/
 
 /-- bytes fed to the hasher since the last (re)initialisation -/
-def Decoder.hashed (d : Decoder) : Array Nat :=
+def Decoder.hashed (d : Decoder σ) : Array Nat :=
   match d.state with | none => #[] | some st => st.buf.hashed
 
 /-- bytes currently buffered -/
-def Decoder.content (d : Decoder) : Array Nat :=
+def Decoder.content (d : Decoder σ) : Array Nat :=
   match d.state with | none => #[] | some st => st.buf.content
 
-def Decoder.window (d : Decoder) : Nat :=
+def Decoder.window (d : Decoder σ) : Nat :=
   match d.state with | none => 0 | some st => st.buf.window
 
-def Decoder.bytesRead (d : Decoder) : Nat :=
+def Decoder.bytesRead (d : Decoder σ) : Nat :=
   match d.state with | none => 0 | some st => st.bytesRead
 
 /-- `frame_finished` (the last block has been decoded; the checksum may be outstanding) -/
-def Decoder.blocksDone (d : Decoder) : Bool :=
+def Decoder.blocksDone (d : Decoder σ) : Bool :=
   match d.state with | none => true | some st => st.finished
 
 /-! ### `write_all_bytes` -/
@@ -267,13 +270,13 @@ inductive DrainOp where
 
 /-- run a drain operation; second component = the bytes handed to the caller (for the sink: the bytes
 the sink accepted, i.e. the first `written` bytes of the buffer) -/
-def applyDrain (d : Decoder) : DrainOp → Decoder × Array Nat
+def applyDrain (d : Decoder σ) : DrainOp → Decoder σ × Array Nat
   | .collect => ((d.collect).1, (d.collect).2.getD #[])
   | .read n => d.read n
   | .toWriter seg1 sc => ((d.collectToWriter seg1 sc).1, d.content.extract 0 (d.collectToWriter seg1 sc).2.1)
 
 /-- every drain operation is a `take k` on the buffer, for some `k` -/
-theorem applyDrain_take (d : Decoder) (op : DrainOp) :
+theorem applyDrain_take (d : Decoder σ) (op : DrainOp) :
     (d.state = none ∧ applyDrain d op = (d, #[])) ∨
     ∃ st k, d.state = some st ∧ k ≤ st.buf.content.size ∧
       applyDrain d op = ({ d with state := some { st with buf := (st.buf.take k).2 } }, (st.buf.take k).1) := by
